@@ -10,7 +10,7 @@ PID = "C14"
 BINS = ["x_core", "x_conv"]
 RULE = ("random ConversionTable<Q,N> (N in 0,1,2,3,4,6,8,12; duplicate (from,to) entries with different coefficients, missing pairs, "
         "identity entries) over SynFive, SynTwo, Temperature and two reference-unit types x every ordered unit pair x amounts: same unit -> "
-        "unchanged, else bit-equal to the amount type's own x*f+o of the FIRST matching entry, else None; TEMPERATURE_CONVERTER x all 9 unit "
+        "unchanged, else bit-equal to the amount type's own x*f+o of the FIRST matching entry (f64: incl. NaN, +-inf and -0.0 amounts), else None; TEMPERATURE_CONVERTER x all 9 unit "
         "pairs x temperatures from absolute zero to 1e6 K incl. fixed points, against exact rational formulas, inverse and composition "
         "consistency over all 27 unit triples; cell = (backend,type or 'temp',u,v[,w],case kind); non-trivial = u != v")
 TABLE_TYPES = ["SynFive", "SynTwo", "Temperature", "SynA", "Length"]
@@ -68,6 +68,9 @@ def work(task):
             if nu > 6 and rng.random() < 0.8 and not any(e[0] == u and e[1] == v for e in table):
                 continue
             x = rng.choice([am.short_decimal(rng, b), am.small_int(rng, b), enc_round(am.log_uniform(rng, -6, 9), b)])
+            if b == "f64" and rng.random() < 0.06:
+                # non-finite and signed-zero amounts take the same table entry as any other amount
+                x = rng.choice(["7ff8000000000000", "7ff0000000000000", "fff0000000000000", "8000000000000000"])
             cases.append({"kind": "table", "ty": ty, "table": table, "u": u, "v": v, "x": x,
                           "reqs": [{"op": "table", "ty": ty, "table": table, "x": x, "u": u, "v": v}]})
     fw.run_cases(part, task["bin"], cases, judge, {"backend": b, "ty": ty, "entry": ent, "module": "c14"})
